@@ -3,6 +3,8 @@ CONSTANTS
   MaxThreads = 2
   MaxDumps = 2
   ResetOnDump = TRUE
+  LimitConsumed = FALSE
+  Limits = {0, 3, 4}
   PlaceByNamedIndex = TRUE
 INVARIANTS C01 C11 C19
 CHECK_DEADLOCK FALSE
